@@ -243,7 +243,10 @@ impl SyntaxPattern {
                         &DatumBody::Symbol(datum_symbol) if datum_symbol == pattern_symbol )
                 }
             }
-            (SyntaxPatternBody::Primitive(_), DatumBody::Primitive(_)) => true,
+            // a literal datum in a pattern matches only an equal datum
+            (SyntaxPatternBody::Primitive(pattern), DatumBody::Primitive(primitive)) => {
+                pattern == primitive
+            }
             _ => false,
         };
 
